@@ -114,6 +114,98 @@ fn interner_case<V: Ord + Clone + std::fmt::Debug>(rng: &mut Rng, rep: &mut Repo
     hash_bytes(&h)
 }
 
+thread_local! {
+    /// comparisons left until `FaultyKey::cmp` panics (0 = disarmed)
+    static CMP_FUSE: std::cell::Cell<u32> = const { std::cell::Cell::new(0) };
+}
+
+/// An element type whose comparison can be made to fail (failpoint): the interner calls `Ord::cmp` of its elements,
+/// and a caller that catches the unwind goes on using the table.
+#[derive(Clone, Debug, PartialEq, Eq)]
+struct FaultyKey(u8);
+
+impl PartialOrd for FaultyKey {
+    fn partial_cmp(&self, o: &Self) -> Option<std::cmp::Ordering> {
+        Some(self.cmp(o))
+    }
+}
+
+impl Ord for FaultyKey {
+    fn cmp(&self, o: &Self) -> std::cmp::Ordering {
+        let left = CMP_FUSE.with(|f| f.get());
+        if left > 0 {
+            CMP_FUSE.with(|f| f.set(left - 1));
+            if left == 1 {
+                panic!("injected fault: comparison fails");
+            }
+        }
+        self.0.cmp(&o.0)
+    }
+}
+
+/// Interner history with injected comparison failures: an operation that unwinds either happened or did not
+/// (the value is in `elements()` exactly if `get` finds it), and the table goes on behaving as a duplicate-free list.
+fn interner_fault_case(rng: &mut Rng, rep: &mut Report, case_id: u64) -> u64 {
+    let alphabet = rng.range(3, 24);
+    let mut it: Interner<FaultyKey> = Interner::new();
+    let mut model: Vec<FaultyKey> = Vec::new();
+    let mut trace: Vec<String> = Vec::new();
+    let mut h: Vec<u8> = Vec::new();
+    let ops = rng.range(5, 120);
+    for _ in 0..ops {
+        let v = FaultyKey((rng.below(alphabet) as u8).wrapping_mul(37));
+        let arm = if rng.chance(1, 4) { rng.range(1, 6) as u32 } else { 0 };
+        h.push(v.0);
+        h.push(arm as u8);
+        trace.push(format!("intern({}){}", v.0, if arm > 0 { format!(" with the comparison failing at call {}", arm) } else { String::new() }));
+        CMP_FUSE.with(|f| f.set(arm));
+        let got = guard(|| {
+            let (ins, s) = it.intern_or_get(v.clone());
+            (ins, sym_id(s))
+        });
+        CMP_FUSE.with(|f| f.set(0));
+        let pos = model.iter().position(|x| x == &v);
+        match got {
+            Ok(g) => {
+                let want = (pos.is_none(), pos.unwrap_or(model.len()) as u32);
+                if pos.is_none() {
+                    model.push(v.clone());
+                }
+                if g != want {
+                    rep.violation("C12/intern_or_get", format!("intern_or_get returned {:?}, list model says {:?}", g, want), json!({"case": case_id, "trace": trace}));
+                    return hash_bytes(&h);
+                }
+            }
+            Err(_) => {
+                rep.count("interner_ops_aborted_by_a_failing_comparison", 1);
+                // all or nothing: if the value made it into the listing, the model takes it too
+                if it.elements().len() == model.len() + 1 && it.elements().last() == Some(&v) && pos.is_none() {
+                    model.push(v.clone());
+                }
+            }
+        }
+        let listed = model.iter().position(|x| x == &v).map(|p| p as u32);
+        let found = guard(|| it.get(&v).map(sym_id));
+        if it.elements() != &model[..] || found.as_ref().ok() != Some(&listed) {
+            rep.violation(
+                "C12/get",
+                format!("after {} the listing has {} values (model {}), get({}) answers {:?} while the listing says {:?}", trace.last().unwrap(), it.elements().len(), model.len(), v.0, found, listed),
+                json!({"case": case_id, "trace": trace}),
+            );
+            return hash_bytes(&h);
+        }
+        #[cfg(have_hooks)]
+        {
+            if let Err(e) = it.verif_invariants() {
+                rep.violation("C12/interner-invariant", e, json!({"case": case_id, "trace": trace}));
+                return hash_bytes(&h);
+            }
+        }
+    }
+    rep.count("interner_fault_histories", 1);
+    hash_bytes(&h)
+}
+
 /// A pool of portable types for builder histories; `self_ref` slots are filled at use time.
 fn type_pool(rng: &mut Rng, n: usize) -> Vec<PType> {
     let cfg = Cfg::small(Mode::Arbitrary);
@@ -136,6 +228,27 @@ fn type_pool(rng: &mut Rng, n: usize) -> Vec<PType> {
                 }
             }
             if let Some(t) = found {
+                pool.push(t);
+                continue;
+            }
+        }
+        // a pool member whose path differs from an earlier one only in where the segments are cut (same text when joined with "::")
+        if !pool.is_empty() && i % 5 == 4 {
+            let mut t = rng.pick(&pool).clone();
+            let segs = t.path.segments.clone();
+            let new_segs: Vec<String> = if segs.len() >= 2 {
+                let k = (i / 5) % (segs.len() - 1);
+                let mut v = segs[..k].to_vec();
+                v.push(format!("{}::{}", segs[k], segs[k + 1]));
+                v.extend_from_slice(&segs[k + 2..]);
+                v
+            } else if segs.len() == 1 && segs[0].contains("::") {
+                segs[0].splitn(2, "::").map(|x| x.to_string()).collect()
+            } else {
+                vec!["my_crate::module".to_string(), "Marker".to_string()]
+            };
+            t.path = scale_info::Path::from_segments_unchecked(new_segs);
+            if !pool.contains(&t) {
                 pool.push(t);
                 continue;
             }
@@ -295,6 +408,7 @@ pub fn run(a: &Args) -> Report {
             return;
         }
         let h = match i % 4 {
+            0 if i % 16 == 8 => interner_fault_case(&mut rng, rep, i),
             0 => {
                 let alphabet = rng.range(2, 8);
                 let ops = rng.range(1, ops_max);
